@@ -26,12 +26,12 @@ def _exec_chunk(args):
     out = []
     for kind, tid, props, payload in args:
         if kind == "hist":
-            cfg, hist = payload
-            out.append(pair.run_hist(cfg, hist, tid, props))
+            cfg, hist, pacing = payload
+            out.append(pair.run_hist(cfg, hist, tid, props, pacing=pacing))
         elif kind == "twin":
-            cfg, hist = payload
-            t1 = pair.run_hist(dict(cfg, memfs=False), hist, tid, props)
-            t2 = pair.run_hist(dict(cfg, memfs=True), hist, tid + 1000000, [p for p in props if p != "C16"])
+            cfg, hist, pacing = payload
+            t1 = pair.run_hist(dict(cfg, memfs=False), hist, tid, props, pacing=pacing)
+            t2 = pair.run_hist(dict(cfg, memfs=True), hist, tid + 1000000, [p for p in props if p != "C16"], pacing=pacing)
             t1["ev2"] = t2["ev"]
             t1["hostTouched"] = Path("/nonexistent_cfdpv").exists()
             out += [t1, t2]
@@ -125,7 +125,7 @@ class Run:
         cfgs_by_id, sch = models.schedules(r, limit, self.rng)
         n_all = models.json_lines.last_total
         for cid, _status, hist in sch:
-            self.jobs.append(("twin" if twin else "hist", self.next_tid, props, (cfgs_by_id[cid], hist)))
+            self.jobs.append(("twin" if twin else "hist", self.next_tid, props, (cfgs_by_id[cid], hist, kw.get("pacing", "canon"))))
             self.next_tid += 1
         self.sched_stats[name] = len(sch)
         if kw.get("simulate") or n_all > len(sch):
@@ -320,10 +320,10 @@ def replay_file(prop: str, path: str) -> int:
     obj = json.loads(Path(path).read_text())
     t0 = obj["trace"]
     if t0["kind"] == "pair" and "ev2" in t0:
-        t = _exec_chunk([("twin", 1, t0["props"], (t0["cfg"], t0["sched"]))])[0]
+        t = _exec_chunk([("twin", 1, t0["props"], (t0["cfg"], t0["sched"], t0.get("pacing", "canon")))])[0]
     elif t0["kind"] == "pair":
         import pair
-        t = pair.run_hist(t0["cfg"], t0["sched"], 1, t0["props"])
+        t = pair.run_hist(t0["cfg"], t0["sched"], 1, t0["props"], pacing=t0.get("pacing", "canon"))
     else:
         t = reexecute(t0)
     t["tid"] = 1
